@@ -729,8 +729,16 @@ func URLEscape(v []byte, resolveReference bool) []byte {
 			n = i
 			continue
 		}
+		// an ill-formed sequence ends at the first byte that is not a
+		// continuation byte
+		for k := i + 1; k < stop; k++ {
+			if v[k]&0xc0 != 0x80 {
+				stop = k
+				break
+			}
+		}
 		cob.Write(StringToReadOnlyBytes(url.QueryEscape(string(v[i:stop]))))
-		i += int(u8len)
+		i = stop
 		n = i
 	}
 	if cob.IsCopied() && n < limit {
